@@ -80,6 +80,38 @@ def oracle(case):
             if w["n_reveals"] != want:
                 v.append({"what": f"a window with set-back {w['setback']} is given {w['n_reveals']} reveal surfaces as obstacles, expected {want}",
                           "key": {"class": "reveal-set", "n": w["n_reveals"]}})
+        pl = w.get("placement")
+        if pl and pl["origins"]:
+            # the sample points are points of the window: mapped back into the frame of the wall polygon (origin at its first vertex, x along
+            # its first edge) they lie inside the window rectangle, on the set-back plane, centred on it
+            import math
+            az, tl = math.radians(pl["azimuth"]), math.radians(pl["tilt"])
+            ex, ey = pl["v1"][0] - pl["v0"][0], pl["v1"][1] - pl["v0"][1]
+            n = math.hypot(ex, ey)
+            if n > 1e-9:
+                cx, sx = ex / n, ey / n
+                us, vs, bad = [], [], None
+                for P in pl["origins"]:
+                    dx, dy, dz = P[0] - pl["pos"][0], P[1] - pl["pos"][1], P[2] - pl["pos"][2]
+                    # undo the turn about z, then the tilt about x
+                    x1, y1 = math.cos(az) * dx + math.sin(az) * dy, -math.sin(az) * dx + math.cos(az) * dy
+                    y2, z2 = math.cos(tl) * y1 + math.sin(tl) * dz, -math.sin(tl) * y1 + math.cos(tl) * dz
+                    lx, ly = x1 - pl["v0"][0], y2 - pl["v0"][1]
+                    u, vv = cx * lx + sx * ly, -sx * lx + cx * ly
+                    us.append(u)
+                    vs.append(vv)
+                    tol = 2e-3 * max(1.0, abs(P[0]), abs(P[1]), abs(P[2]))
+                    if abs(z2 + pl["setback"]) > tol or not (pl["x"] - tol <= u <= pl["x"] + pl["w"] + tol) or not (pl["y"] - tol <= vv <= pl["y"] + pl["h"] + tol):
+                        bad = (P, u, vv, z2)
+                _stats["windows_with_sample_points_checked"] += 1
+                if bad is None:
+                    tol = 2e-3 * max(1.0, max(abs(c) for P in pl["origins"] for c in P))
+                    if abs(sum(us) / len(us) - (pl["x"] + pl["w"] / 2)) > tol or abs(sum(vs) / len(vs) - (pl["y"] + pl["h"] / 2)) > tol:
+                        bad = ("centroid", sum(us) / len(us), sum(vs) / len(vs), 0.0)
+                if bad is not None:
+                    v.append({"what": f"sample point {bad[0]} of a window at ({pl['x']}, {pl['y']}) size {pl['w']} x {pl['h']} set back {pl['setback']} lies at "
+                                      f"({bad[1]:.3f}, {bad[2]:.3f}, depth {bad[3]:.3f}) in the frame of its wall polygon: not on the window",
+                              "key": {"class": "sample-points-off-window", "canonical_polygon": abs(pl["v0"][0]) + abs(pl["v0"][1]) < 1e-9 and abs(sx) < 1e-9}})
         if fs < -1e-6 or fs > 1 + 1e-6:
             v.append({"what": f"obstruction factor {fs} outside [0,1]", "key": {"class": "factor-out-of-range"}})
         hrs = w["hours"]
